@@ -49,6 +49,14 @@ func (e qExpr) sql() string {
 // qZeroPad is set while a query with zeroPad is rendered: non-negative integer literals get a leading zero.
 var qZeroPad bool
 
+// outName is the name of the output column an item produces.
+func (it qItem) outName() string {
+	if it.alias != "" {
+		return it.alias
+	}
+	return it.col.name
+}
+
 type qAtom struct {
 	l, r qExpr
 	op   string
